@@ -185,7 +185,9 @@ func (a *AreaMembers) Clone() AreaMembers {
 		ids:      make([][]b6.FeatureID, len(a.ids)),
 		polygons: make([]*s2.Polygon, len(a.polygons)),
 	}
-	copy(clone.ids, a.ids)
+	for i, ids := range a.ids {
+		clone.ids[i] = slices.Clone(ids) // nil (polygon given as lat/lngs) stays nil
+	}
 	copy(clone.polygons, a.polygons)
 	return clone
 }
